@@ -7,7 +7,8 @@ RULE = ("every statement form the property lists, with every option subset: CREA
         "random letter case, names plain / mixed case / keyword-like (comment, sequence, key, type, order ...); expected entity "
         "built from the statement's parts; a following table that uses the type as a column type must report the (possibly "
         "schema-qualified) type name verbatim. non-trivial = distinct statement")
-PARTIAL = ["the entity forms are explored against their specification; they are not yet a fragment under the engine theorem",
+PARTIAL = ["CREATE TABLESPACE / DATABASE / SCHEMA [IF NOT EXISTS] are under the engine theorem (names over 97 keywords + plain words); CREATE TYPE / "
+           "DOMAIN and SCHEMA with AUTHORIZATION / COMMENT are explored against their specification",
            "CREATE DOMAIN without a parenthesised type parameter is not supported by the grammar (silently skipped): outside the forms checked"]
 ASSUMES = []
 
@@ -116,6 +117,41 @@ def run(ctx, res):
             res.violation("input", "a column typed with the user type %r is not reported verbatim" % qn, ddl=ddl, oracle="type_use")
         else:
             res.nontrivial.add(ddl)
+    # ---- the forms under the theorem: expected value = the extracted Coq denote, names over ALL accepted keywords ----------
+    if ctx.model:
+        dump = json.load(open(os.path.join(COQ, "Gen", "dump.json")))
+        nonkw = {"ID", "DOT", "STRING_BASE", "DQ_STRING", "LP", "RP", "LT", "RT", "COMMAT", "EQ", "COMMA"}
+        kws = [t for t in dump["tokens"] if t not in nonkw]
+        names = kws + [k.lower() for k in kws] + ["plain_1", "MixedCase", "[br]", "`bt`"]
+        asts = []
+        for nm_ in names:
+            form = rng.randrange(7)
+            if form <= 2:
+                pre = [[], [rng.choice(["BIGFILE", "smallfile", "Temporary", "TEMPORARY"])],
+                       [rng.choice(["BIGFILE", "SMALLFILE"]), rng.choice(["temporary", "TEMPORARY", "other"])]][form]
+                asts.append(["T", kwc(rng, "CREATE"), kwc(rng, "TABLESPACE"), nm_] + pre)
+            elif form == 3:
+                asts.append(["D", kwc(rng, "CREATE"), kwc(rng, "DATABASE"), nm_])
+            elif form == 4:
+                asts.append(["S", kwc(rng, "CREATE"), kwc(rng, "SCHEMA"), nm_])
+            else:
+                asts.append(["S", kwc(rng, "CREATE"), kwc(rng, "SCHEMA"), nm_, kwc(rng, "IF"), kwc(rng, "NOT"), kwc(rng, "EXISTS")])
+        for norm in (False, True):
+            sp = ctx.model.map([("ent_spec", ["1" if norm else "0"] + a) for a in asts])
+            texts = [" ".join(x[1] for x in s_["lexemes"]) + ";" if "lexemes" in s_ else None for s_ in sp]
+            R2 = ctx.impl.map([{"op": "run", "ddl": t or "", "ctor": {"normalize_names": norm}} for t in texts])
+            res.evaluations += len(asts)
+            for a, s_, t, r in zip(asts, sp, texts, R2):
+                if not s_.get("wf"):
+                    res.count("theorem_form:not_wf")
+                    continue
+                res.count("theorem_form:wf")
+                got = canon_impl(r["ok"]) if "ok" in r else ("raise", r.get("raise"))
+                if got != ("list", (canon_model(s_["denote"]),)):
+                    res.violation("input", "entity differs from the Coq specification (denote)", ddl=t, ctor={"normalize_names": norm},
+                                  expected=s_["denote"], actual=py_of_impl(r["ok"]) if "ok" in r else r, oracle="ent_denote")
+                else:
+                    res.nontrivial.add(t + str(norm))
     res.samples.append({"ddl": cases[0][1], "expected": cases[0][2]})
     res.samples.append({"ddl": cases[6][1], "expected": cases[6][2]})
 
